@@ -24,7 +24,9 @@ TINY = {
  (library prims (edifLevel 0) (technology (numberDefinition))
   (cell BUF (cellType GENERIC) (view netlist (viewType NETLIST) (interface (port I (direction INPUT)) (port O (direction OUTPUT))))))
  (library work (edifLevel 0) (technology (numberDefinition))
-  (cell mid (cellType GENERIC) (view netlist (viewType NETLIST) (interface (port m (direction INPUT)))))
+  (cell mid (cellType GENERIC) (view netlist (viewType NETLIST) (interface (port m (direction INPUT)))
+   (contents (instance x9 (viewRef netlist (cellRef BUF (libraryRef prims))))
+    (net m (joined (portRef m) (portRef I (instanceRef x9)))))))
   (cell top (cellType GENERIC) (view netlist (viewType NETLIST)
    (interface (port a (direction INPUT)) (port (array (rename b "b[1:0]") 2) (direction OUTPUT)))
    (contents (instance u1 (viewRef netlist (cellRef BUF (libraryRef prims))) (property INIT (string "00112233445566778899AABBCCDDEEFF00112233445566778899aabbccddeeff")))
@@ -116,7 +118,7 @@ def corrupt(rng, fmt, text, kind=None):
     idx = [i for i, t in enumerate(toks) if not t.isspace()]
     if not idx:
         return text, 'empty', -1
-    kind = kind or rng.choice(['truncate', 'truncate', 'delete', 'duplicate', 'replace', 'garbage', 'dangling'])
+    kind = kind or rng.choice(['truncate', 'truncate', 'delete', 'duplicate', 'replace', 'garbage', 'dangling', 'cross'])
     k = rng.choice(idx)
     if kind == 'truncate':
         return ''.join(toks[:k]), kind, k
@@ -128,6 +130,12 @@ def corrupt(rng, fmt, text, kind=None):
         return ''.join(toks[:k] + [toks[rng.choice(idx)]] + toks[k + 1:]), kind, k
     if kind == 'garbage':
         return ''.join(toks[:k] + [rng.choice(['zz_nosuch', '(', ')', '"', ';', '.end', 'endmodule', '[', '123', '\\'])] + toks[k + 1:]), kind, k
+    if kind == 'cross' and fmt == 'edif':
+        cr = cross_refs(toks, idx)
+        if cr:
+            r, j, m = rng.choice(cr)
+            return ''.join(toks[:j] + [m] + toks[j + 1:]), 'cross:' + toks[r], j
+        kind = 'dangling'
     if kind == 'dangling':
         if fmt == 'edif':
             refs = [i for i in idx if toks[i] in REF_WORDS or toks[i] == 'member']
@@ -141,6 +149,37 @@ def corrupt(rng, fmt, text, kind=None):
             j = rng.choice(words)
             return ''.join(toks[:j] + ['zz_undeclared_9'] + toks[j + 1:]), 'dangling:any', j
     return ''.join(toks[:k]), 'truncate', k
+
+
+DECL_OF = {'instanceRef': 'instance', 'portRef': 'port', 'cellRef': 'cell', 'libraryRef': 'library', 'viewRef': 'view'}
+
+
+def cross_refs(toks, idx):
+    """(ref position, name position, other declared name of the kind the reference asks for)"""
+    decl = collections.defaultdict(list)
+    for a, i in enumerate(idx):
+        if toks[i] in DECL_OF.values() and a and toks[idx[a - 1]] == '(':
+            rest = [x for x in idx[a + 1:a + 5]]
+            if rest and toks[rest[0]] == '(' and len(rest) > 2 and toks[rest[1]] in ('rename', 'array'):
+                nm = toks[rest[2]] if toks[rest[2]] != '(' else (toks[rest[4 - 1]] if len(rest) > 3 else None)
+                if toks[rest[2]] == '(' and len(idx) > a + 5:   # (array (rename x "..") n)
+                    nm = toks[idx[a + 5]]
+            elif rest:
+                nm = toks[rest[0]]
+            else:
+                nm = None
+            if nm and nm not in '()' and nm not in decl[toks[i]]:
+                decl[toks[i]].append(nm)
+    out = []
+    for r in idx:
+        if toks[r] in DECL_OF:
+            j = next((x for x in idx if x > r and toks[x] not in '()'), None)
+            if j is None or toks[j] == 'member':
+                continue
+            for m in decl[DECL_OF[toks[r]]]:
+                if m.lower() != toks[j].lower():
+                    out.append((r, j, m))
+    return out
 
 
 def exhaustive(fmt, text):
@@ -179,7 +218,11 @@ def exhaustive(fmt, text):
                 j = next((x for x in idx if x > r and toks[x] not in '()'), None)
                 if j is not None:
                     out.append((''.join(toks[:j] + ['zz_undeclared_9'] + toks[j + 1:]), 'dangling:' + toks[r], j))
-        # a reference spelled like the display name of a renamed object is dangling too: references go by identifier
+        # a reference re-spelled as a name that IS declared, but for another object of that kind (an instance of a
+        # different cell, a port of a different cell, a cell of a different library ...): the reader either resolves
+        # it in the scope the reference stands in or rejects it - what it hands back must be well formed either way
+        for r, j, m in cross_refs(toks, idx):
+            out.append((''.join(toks[:j] + [m] + toks[j + 1:]), 'cross:' + toks[r], j))
         idents = set(t.lower() for t in toks)
         shown = sorted(set(m for m in re.findall(r'\(rename\s+\S+\s+"([^"\s()]+)"\)', text) if m.lower() not in idents))
         for r in idx:
